@@ -16,7 +16,7 @@ CONSTANTS
   Concurrent = TRUE
   WithRejects = FALSE
   ExportOneIn = 1
-INVARIANTS NoViolation CacheCounterExact ChunksAbut DurableIsPrefix Export
+INVARIANTS NoViolation CacheCounterExact ChunksAbut DurableIsPrefix Export 
 VIEW View
 ALIAS Alias
 CHECK_DEADLOCK FALSE
